@@ -283,23 +283,31 @@ def st_placed_case(draw, scheme):
         cfg["param_b"] = draw(st.sampled_from([1, 2, 3, 8, 64]))
         if cfg["param_identifier_size"] == 1:
             cfg["param_identifier_size"] = 2
-        k = draw(st.integers(3, 10))
+        k = draw(st.sampled_from([1, 1, 2, 3, 5, 8, 10]))  # one keyword owning every block is the sharpest case
         blocks = [draw(st.integers(1, 8)) for _ in range(k)]
         if sum(blocks) < 18:
-            blocks[-1] += 18 - sum(blocks)
+            blocks[draw(st.integers(0, k - 1))] += 18 - sum(blocks)
         lens = [draw(st.integers((c - 1) * cfg["param_B"] + 1, c * cfg["param_B"])) for c in blocks]
     elif scheme == "CJJ14.Pi2Lev":
         idsz = draw(st.sampled_from([2, 4, 8]))
         combos = [c for c in S.PI2LEV_COMBOS[idsz] if c[1] <= 3 and c[0] <= 4 and c[0] * c[2] * c[3] >= 24]
         Bk, b, Bp, bp = draw(st.sampled_from(combos))
         cfg.update(param_B=Bk, param_b=b, param_B_prime=Bp, param_b_prime=bp, param_identifier_size=idsz)
-        lim = min(desc.limit(cfg) - 1, 40)
-        k = draw(st.integers(3, 10))
-        lens = [draw(st.integers(b + 1, lim)) for _ in range(k)]
-        while desc.a_len(cfg, lens) - 1 < 18:
-            lens.append(lim)
-        if not desc.lens_ok(cfg, lens):
-            lens = [min(lim, b + 1)] * 18
+        if draw(st.booleans()):
+            # exactly one array-resident keyword (it owns every array block), the other keywords stay in the dictionary
+            lim = min(desc.limit(cfg) - 1, 120)
+            need = 18 * Bk
+            lens = [min(lim, max(b + 1, need + draw(st.integers(0, 2 * Bk))))] + [draw(st.integers(1, b)) for _ in range(draw(st.integers(0, 4)))]
+            if desc.a_len(cfg, lens) - 1 < 18 or not desc.lens_ok(cfg, lens):
+                lens = [lim]
+        else:
+            lim = min(desc.limit(cfg) - 1, 40)
+            k = draw(st.integers(3, 10))
+            lens = [draw(st.integers(b + 1, lim)) for _ in range(k)]
+            while desc.a_len(cfg, lens) - 1 < 18:
+                lens.append(lim)
+            if not desc.lens_ok(cfg, lens):
+                lens = [min(lim, b + 1)] * 18
     elif scheme == "CGKO06.SSE1":
         if cfg["param_s"] < 32 or cfg["param_s"] > 1024:
             cfg["param_s"] = draw(st.sampled_from([32, 64, 256, 1024]))
@@ -348,6 +356,9 @@ def body(case, res):
             res.count(fp, True, ["scheme:" + scheme, "part:placed"], sample=sample)
             raise
         cl = ["scheme:" + scheme, "part:placed", "placement_asserted" if info["asserted"] else "placement_bound_not_met"]
+        if scheme in ("CJJ14.PiPtr", "CJJ14.Pi2Lev"):
+            resident = [n for n in case["db"]["lens"] if scheme == "CJJ14.PiPtr" or n > case["cfg"]["param_b"]]
+            cl.append("array_resident_keywords:" + ("1" if len(resident) == 1 else ">1"))
         if scheme == "DP17.Pi":
             cl.append("arrangement_asserted" if info.get("asserted_arrangement") else "arrangement_bound_not_met")
         res.count(fp, info["asserted"], cl, sample=sample)
